@@ -5,6 +5,7 @@ CONSTANTS
   Data <- DataA
   NumberMode = "conforming"
   MaxCalls = 0
+  GenTextIdx <- Idx123
   Depth = 0
 INIT FInitAll
 NEXT FNext
